@@ -9,6 +9,14 @@ transaction / rollback-or-apply phase of every call, the three phases of NewCirc
   (d) TLC trace validation of everything recorded (returns, memory, the two buckets),
   (e) negative control, and - thorough tier - the API-level anomalies (H9, H10, H11) located by TLC
       on the relaxed model and replayed on the real map.
+spec/CircuitMap/SwitchForward: the switch-level forwarding path (Switch.ForwardPackets on the batch of a
+forwarding package: CommitCircuits -> routeAsync per packet -> the link is stopped in the middle ->
+rollback of the circuits that were not handed over -> the re-created link replays the package), judged
+for "an incoming HTLC is handed to an outgoing channel at most once, and is not lost":
+  (f) exhaustive TLC + the two defect witnesses (rollback of all / of no circuits),
+  (g) TLC-generated schedules and a directed one replayed on a real, started Switch (real forwarder,
+      circuit map, mailboxes, forwarding package; harness/htlcswitch/c07_switch_test.go),
+  (h) TLC trace validation (SwitchForwardTrace) + negative controls.
 """
 import copy
 import json
@@ -20,7 +28,7 @@ from ..core import Inconclusive
 
 SPEC = os.path.join(core.VERIF, "spec", "CircuitMap")
 LEVEL = "model_checking"
-HARNESS = ["htlcswitch/c07_test.go"]
+HARNESS = ["htlcswitch/c07_test.go", "htlcswitch/c07_switch_test.go"]
 INVS = ("AtMostOnceForward AtMostOneResponse RestartExact OpenedConsistent OpenedSubsetPending "
         "OneRecordPerKey OneCircuitPerOut MemDiskAgree ClosedSubset")
 
@@ -206,6 +214,8 @@ def replay(ck):
     validate what it records with the stored constants."""
     d = ck.replay
     meta = json.load(open(os.path.join(d, "meta.json")))
+    if meta.get("part") == SWF_KEY:
+        return swf_replay(ck, d, meta)
     ck.model_check(SPEC, "CircuitMapMC", "CircuitMapMC.cfg", "CircuitMap (replay sanity run)",
                    constants=dict(universe_consts([1], [2, 3], 2, 2, 1), Relaxed="{}", MaxOps=3, MaxCrash=1, MaxFail=1),
                    name="mc_replay", timeout=600, workers=4)
@@ -266,6 +276,9 @@ def run(ck):
     if "random" not in skip:
         total += seeded(ck, thorough, base)
     ck.cov["traces_validated_against_impl"] += total
+    # ---------------------------------------------------------------- (f)-(h) switch-level forwarding path
+    if "swfwd" not in skip:
+        switch_forward(ck, thorough)
     # ---------------------------------------------------------------- (e) anomalies outside the assumptions
     if thorough and "anomaly" not in skip:
         anomalies(ck)
@@ -324,6 +337,171 @@ def seeded(ck, thorough, base):
     return n2
 
 
+# ------------------------------------------------------------------------------------------------
+# Switch-level forwarding path: spec/CircuitMap/SwitchForward{,MC,Gen,Trace}, executor TestVerifC07SwitchForward
+SWF_KEY = "switchfwd"
+SWF_INVS = "AtMostOnceOut OneMailbox HeldHasCircuit OpenIffCommitted NotLost"
+
+
+def swf_consts(n, nout):
+    return {"N": n, "OutChans": tla_set(range(1, nout + 1)), "Rollback": '"tail"'}
+
+
+def swf_execute(ck, sched, n, nout, name):
+    res = ck.go_test("./htlcswitch/", "^TestVerifC07SwitchForward$", HARNESS,
+                     env={"VERIF_C07_SWFWD": sched, "VERIF_C07_SWFWD_N": n, "VERIF_C07_SWFWD_OUT": nout, "VERIF_PAR": 4},
+                     name=name, timeout=900)
+    p = os.path.join(res["dir"], "trace_switch.ndjson")
+    if not os.path.exists(p) or os.path.getsize(p) == 0:
+        raise Inconclusive("switch-level executor produced no trace:\n" + res["out"][-3000:])
+    return res, core.read_ndjson(p)
+
+
+def swf_validate(ck, recs, consts, name, expect_ok=True, sched_dir=None):
+    p = os.path.join(ck.out, name + ".ndjson")
+    core.write_ndjson(p, recs)
+    v = ck.validate(SPEC, "SwitchForwardTrace", "SwitchForwardTrace.cfg", p, constants=consts, name=name)
+    if v["ok"] or not expect_ok:
+        return v
+    line = v["line"] or 1
+    a, b = core.slice_trace(recs, line, is_reset)
+    bad = recs[min(line - 1, len(recs) - 1)]
+    inv = (v["invariant"] or "").replace("invariant ", "")
+    if inv == "ConformNote":
+        raise Inconclusive("switch-level executor could not follow a schedule that conformed so far (harness problem): %s"
+                           % str(bad)[:500])
+    one = os.path.join(ck.out, name + "_failing_trace.ndjson")
+    core.write_ndjson(one, recs[a:b])
+    files = {"trace.ndjson": one,
+             "meta.json": write_meta(ck, name, consts, {}, None)}
+    meta = json.load(open(files["meta.json"]))
+    meta["part"] = SWF_KEY
+    json.dump(meta, open(files["meta.json"], "w"))
+    plan = recs[a].get("plan")
+    if sched_dir and plan and os.path.exists(os.path.join(sched_dir, plan)):
+        files["schedule.ndjson"] = os.path.join(sched_dir, plan)
+    show = {k: bad.get(k) for k in ("a", "c", "circ", "mb", "fk", "fd", "ret", "infl", "ack", "tk", "oerr", "lg", "cm")}
+    ck.violation("%s:%s:%s" % (SWF_KEY, inv, bad.get("a")),
+                 "the real Switch deviates from spec/CircuitMap/SwitchForward (%s) at step %d of schedule %s: %s - "
+                 "ForwardPackets must keep the circuit of every packet it handed to the forwarder and roll back only "
+                 "the circuits of the packets it did not hand over, so that an incoming HTLC is handed to an outgoing "
+                 "channel at most once and is not lost" % (v["invariant"], line - a - 1, plan, json.dumps(show)),
+                 files=files, text="\n".join(json.dumps(r) for r in recs[a:b]) + "\n" + (v["cex"] or ""))
+    return v
+
+
+def swf_controls(ck, recs, consts):
+    """Negative controls: corrupt one recorded field of the valid trace."""
+    def one_trace(i):
+        a, b = core.slice_trace(recs, i + 1, is_reset)
+        return copy.deepcopy(recs[a:b]), i - a
+    ctl = []
+    # the circuit of a packet that was handed over is recorded as gone after the aborted call (= what a
+    # rollback of the whole batch would show)
+    i = next((k for k, r in enumerate(recs) if r["a"] == "Abort" and 1 in r["circ"]), None)
+    if i is not None:
+        t, j = one_trace(i)
+        t[j]["circ"] = [0 for _ in t[j]["circ"]]
+        ctl.append(("the circuits of the handed-over packets recorded as deleted after an Abort", t))
+    # another add is recorded as delivered by the courier
+    i = next((k for k, r in enumerate(recs) if r["a"] == "Take" and r["tk"] >= 0), None)
+    if i is not None:
+        t, j = one_trace(i)
+        t[j]["tk"] = (t[j]["tk"] + 1) % len(t[j]["circ"])
+        ctl.append(("another add recorded as delivered by a Take", t))
+    # a packet is recorded in the other link's mailbox
+    i = next((k for k, r in enumerate(recs) if r["a"] == "HandOver" and r["mb"][0] and r["infl"] == 0), None)
+    if i is not None:
+        t, j = one_trace(i)
+        t[j]["mb"] = [t[j]["mb"][0][:-1], t[j]["mb"][1] + t[j]["mb"][0][-1:]] + t[j]["mb"][2:]
+        ctl.append(("a handed-over packet recorded in the other link's mailbox", t))
+    if len(ctl) < 2:
+        raise Inconclusive("switch level: no Abort/Take step for the negative controls")
+    for k, (m, t) in enumerate(ctl):
+        v = swf_validate(ck, t, consts, "control_swfwd_%d" % k, expect_ok=False)
+        if v["ok"]:
+            raise Inconclusive("negative control accepted (switch level: %s): trace validation is not binding" % m)
+        ck.cov.setdefault("negative_controls", []).append(
+            dict(mutation="switch level: " + m, rejected_by=v["invariant"], at_line=v["line"]))
+
+
+def switch_forward(ck, thorough):
+    skip = os.environ.get("C07_DEV_SKIP", "").split(",")
+    # ---- (f) model checking + witnesses
+    if "mc" not in skip:
+        mcs = [("3 adds, 2 outgoing links, 3 link instances", dict(swf_consts(3, 2), MaxLinks=3, MaxOutRestarts=1))]
+        if thorough:
+            mcs += [("4 adds, 2 outgoing links, 3 link instances", dict(swf_consts(4, 2), MaxLinks=3, MaxOutRestarts=1)),
+                    ("3 adds, 3 outgoing links, 4 link instances", dict(swf_consts(3, 3), MaxLinks=4, MaxOutRestarts=2))]
+        for i, (what, c) in enumerate(mcs):
+            ck.model_check(SPEC, "SwitchForwardMC", "SwitchForwardMC.cfg", "SwitchForward " + what, constants=c,
+                           name="mc_swfwd_%d" % (i + 1), timeout=1500, workers=4)
+        for cfg, want, what in (("SwitchForwardWitOnce.cfg", "AtMostOnceOut",
+                                 "witness: a rollback of ALL added circuits puts an HTLC on two outgoing channels"),
+                                ("SwitchForwardWitLost.cfg", "NotLost",
+                                 "witness: no rollback leaves a committed circuit whose packet is nowhere")):
+            r = ck.model_check(SPEC, "SwitchForwardMC", cfg, what, must_hold=False, name="wit_" + want, timeout=300, workers=2)
+            if r.violation != "invariant " + want:
+                raise Inconclusive("%s: expected a violation of %s, got %s" % (what, want, r.violation))
+        ck.cov["invariants"] = ck.cov.get("invariants", []) + SWF_INVS.split()
+    # ---- (g) schedules: generated + the directed one (stop after the first packet, replay to the other link)
+    n, nout = 3, 2
+    consts = swf_consts(n, nout)
+    num = 600 if thorough else 150
+    files = ck.generate(SPEC, "SwitchForwardGen", "SwitchForwardGen.cfg", num, 45,
+                        constants=dict(consts, MaxLen=40), name="gen_swfwd", timeout=600)
+    sched = os.path.dirname(files[0])
+    shutil.copy(os.path.join(SPEC, "repro", "swfwd_stop_mid_batch_replay.ndjson"), os.path.join(sched, "b_0.ndjson"))
+    res, recs = swf_execute(ck, sched, n, nout, "exec_swfwd")
+    # ---- (h) validation
+    v = swf_validate(ck, recs, consts, "val_swfwd", sched_dir=sched)
+    ntr = sum(1 for r in recs if is_reset(r))
+    hist = histogram(recs)
+    ck.cov["evaluations"] += len(recs) - ntr
+    seqs, mid = set(), 0
+    a = 0
+    for b in [i for i, r in enumerate(recs) if is_reset(r)][1:] + [len(recs)]:
+        t = recs[a:b]
+        a = b
+        h = core.sha(str([(r["a"], r["c"]) for r in t]))
+        if h not in seqs and any(r["a"] == "Abort" for r in t):
+            mid += 1
+        seqs.add(h)
+    ck.cov["distinct_nontrivial"] += mid
+    ck.cov["switch_forward"] = dict(traces=ntr, steps=len(recs) - ntr, distinct_schedules=len(seqs),
+                                    distinct_with_link_stopped_mid_batch=mid, step_histogram=hist,
+                                    replays_after_abort=sum(1 for i, r in enumerate(recs) if r["a"] == "Begin" and r["ret"] == "err"))
+    if v["ok"]:
+        if res["rc"] != 0:
+            raise Inconclusive("switch-level executor failed although everything it recorded conforms:\n" + res["out"][-3000:])
+        ck.cov["traces_validated_against_impl"] += ntr
+        swf_controls(ck, recs, consts)
+        i = next((k for k, r in enumerate(recs) if r["a"] == "Abort"), None)
+        if i is not None:
+            keep = ("a", "c", "circ", "mb", "fk", "fd", "ret", "infl", "ack")
+            ck.cov["samples"].append({"switch level, a link stopped in the middle of a batch": [
+                {k: r[k] for k in keep} for r in recs[max(0, i - 3):i + 1]]})
+
+
+def swf_replay(ck, d, meta):
+    sched = ck.scratch("sched_replay")
+    src = os.path.join(d, "schedule.ndjson")
+    if not os.path.exists(src):
+        raise Inconclusive("no schedule stored in %s" % d)
+    shutil.copy(src, os.path.join(sched, "b_1.ndjson"))
+    consts = meta["constants"]
+    n = int(consts["N"])
+    nout = len([x for x in consts["OutChans"].strip("{}").split(",") if x.strip()])
+    ck.model_check(SPEC, "SwitchForwardMC", "SwitchForwardMC.cfg", "SwitchForward (replay sanity run)",
+                   constants=dict(consts, MaxLinks=3, MaxOutRestarts=1), name="mc_replay", timeout=600, workers=4)
+    res, recs = swf_execute(ck, sched, n, nout, "exec_replay")
+    ck.cov["evaluations"] += len(recs) - 1
+    ck.cov["traces_validated_against_impl"] += 1
+    v = swf_validate(ck, recs, consts, "val_replay", sched_dir=sched)
+    ck.cov["samples"].append({"replay": d, "accepted": v["ok"]})
+    describe(ck)
+
+
 def anomalies(ck):
     anomaly(ck, "H9:commit-during-inflight-delete",
             "API level (the switch never issues this order): CommitCircuits(k) while DeleteCircuits(k) is "
@@ -347,12 +525,18 @@ def describe(ck):
                       "of Commit, Open, Trim, Delete; Close; Fail; htlc-index advance; channel closed; resolution "
                       "message; Crash; the three phases of NewCircuitMap) generated by TLC -simulate from CircuitMapGen "
                       "(2 threads) and by the seeded driver (3 threads, larger universe); each replayed on the real "
-                      "circuit map over bolt; distinct = distinct step sequences with at least one committed durable write")
+                      "circuit map over bolt; distinct = distinct step sequences with at least one committed durable write; "
+                      "switch level: schedules = sequences of Begin/Route/Abort/HandOver/Take/OutCommit/OutRestart/Stop/Relink/"
+                      "SetElig generated by TLC -simulate from SwitchForwardGen (+ one directed schedule) and replayed on a real "
+                      "started Switch; distinct there = distinct schedules in which a link is stopped in the middle of a batch")
     ck.cov["trusted_base"] = ["TLC 1.8.0", "CommunityModules Json",
                               "executor projection (LookupCircuit/LookupOpenCircuit over the universe, closed map, "
                               "NumPending/NumOpen, raw contents of the circuit-adds and circuit-keystones buckets)",
                               "verifkit.DB: kvdb.Batch arrives as one Update (no coalescing)",
-                              "park points immediately before/after each transaction = the code's own critical sections"]
+                              "park points immediately before/after each transaction = the code's own critical sections",
+                              "switch level: mock links of the htlcswitch package play the links (the outgoing ones park the "
+                              "forwarder at handleSwitchPacket); the incoming link's batch = un-acked adds of a real forwarding "
+                              "package; projection = LookupCircuit/HasKeystone, the mailboxes' add queues, AckFilter from the DB"]
     ck.assumptions += [
         "A1 callers learn of a circuit only from the Adds answer (no Open/Fail/Delete of a key whose commit is in flight)",
         "A2 the memory phase of DeleteCircuits is the point where a key is forgotten (the at-most-once counters reset there)",
@@ -364,6 +548,10 @@ def describe(ck):
         "the transaction of a run-time TrimOpenCircuits does not fail (else H11); its failure inside NewCircuitMap is modelled",
         "H4: OpenCircuits batches are well formed (distinct keys, circuits without keystone, next free ids of one channel)",
         "kvdb.Batch coalescing is disabled by the wrapper: each call is its own transaction",
+        "switch level (SwitchForward): a link is stopped only while no ForwardPackets call is in flight or while its call is "
+        "blocked in routeAsync behind a busy forwarder (Go's select between a free forwarder and a closed quit channel is "
+        "random; the model allows both, the schedules take the deterministic ones); one eligible outgoing link at a time; "
+        "responses, node restarts (Fails answers) and a failing CommitCircuits transaction are not part of that module",
         "at-most-one-response is per process lifetime (the closed set is volatile by design; across a restart the "
         "duplicate is stopped by the incoming channel's update log - C08)",
     ]
